@@ -154,7 +154,7 @@ def guarded_read(fn, node):
     for p in ast.walk(fn):
         if isinstance(p, ast.Compare) and any(isinstance(c, ast.Constant) and c.value is None for c in p.comparators) and p.left is node:
             return True
-        if isinstance(p, ast.IfExp) and pyrules.default_idiom(p) and (p.body is node):
+        if isinstance(p, ast.IfExp) and pyrules.default_idiom(p) and (p.body is node or p.orelse is node) and pyrules.default_idiom(p)[0] == norm(node):
             return True
         if isinstance(p, ast.UnaryOp) and isinstance(p.op, ast.Not) and p.operand is node:
             return True
@@ -253,6 +253,7 @@ def run(chk):
     r20_2(chk)
     r20_3(chk)
     r20_4(chk)
+    r20_6(chk)
     chk.explanation = ('derive-before-read typestate over the CFG of every public evaluation method (with kernel attribute reads), '
                        'effect analysis on caller-supplied arrays, in-place scalings, prange write-disjointness')
 
@@ -424,3 +425,61 @@ def r20_4(chk):
         fieldk.helper_bounds(chk, 'R20.4', u3, rel3, h)
     from . import c17
     c17.integratev_structure(chk, 'R20.4')
+
+
+# --------------------------------------------------------------------------
+# R20.6 attribute accumulators start from a value set in the same call
+
+
+def _self_target(t):
+    base = t
+    while isinstance(base, ast.Subscript):
+        base = base.value
+    d = dotted(base) or ''
+    return d if d.startswith('self.') and d.count('.') == 1 else None
+
+
+def r20_6(chk):
+    """an attribute that a method accumulates into (``self.x += ...`` or ``self.x = self.x + ...``)
+    must be given a fresh value by a plain assignment on every path to the accumulation within the
+    same call; otherwise a second evaluation of the same object starts from the first one's total"""
+    n_acc = 0
+    for rel in PY_FILES:
+        mod = module(rel)
+        for cls, methods in mod.classes.items():
+            for name, fn in methods.items():
+                cfg = None
+                for n in ast.walk(fn):
+                    held = None
+                    if isinstance(n, ast.AugAssign):
+                        held = _self_target(n.target)
+                    elif isinstance(n, ast.Assign) and len(n.targets) == 1 and isinstance(n.targets[0], ast.Attribute):
+                        d = _self_target(n.targets[0])
+                        if d and pyrules.default_idiom(n.value) is None and isinstance(n.value, ast.BinOp) and \
+                                any((dotted(x) or '') == d for x in ast.walk(n.value) if isinstance(x, ast.Attribute)):
+                            held = d
+                    if not held:
+                        continue
+                    cfg = cfg or CFG(fn)
+                    i = cfg.node_of_stmt(n)
+                    if i is None:
+                        continue
+
+                    def fresh(j, m, held=held, me=n):
+                        if m is me or not isinstance(m, ast.Assign):
+                            return False
+                        for t in m.targets:
+                            for x in ([t] + (list(t.elts) if isinstance(t, (ast.Tuple, ast.List)) else [])):
+                                if (dotted(x) or '') == held:
+                                    # a fresh value: the right-hand side does not read the attribute itself
+                                    return not any((dotted(y) or '') == held for y in ast.walk(m.value) if isinstance(y, ast.Attribute))
+                        return False
+                    ws = cfg.ids_where(fresh)
+                    # the reset must also lie outside the innermost loop that accumulates (else nothing accumulates) - any dominating reset is accepted
+                    ok = bool(ws) and cfg.must_pass(i, ws)
+                    n_acc += 1
+                    chk.ob('R20.6', ok, rel, '%s.%s' % (cls, name), 'accumulation into ' + held, line=n.lineno,
+                           expected='%s is assigned a fresh value on every path from the entry of %s to this statement' % (held, name),
+                           got=norm(n)[:70] + (' - no dominating plain assignment in this method; the total of an earlier call is carried over' if not ok else ''),
+                           sample='%s.%s: %s starts from a value assigned in the same call' % (cls, name, held))
+    chk.floor('R20.6 attribute accumulators', n_acc, 4)
